@@ -9,12 +9,6 @@
 //                  B  BatchLogRecordProcessor (real worker thread) in front of a keeping exporter
 //                  P  as K, the recordable wraps a ReadWriteLogRecord and counts the SDK-internal setter calls
 // Attribute keys and event names live in exact-size heap blocks that are FREED right after the call (ASan).
-// A case that can reach EventId{id} (name_ == nullptr) runs in a forked child; a dead child prints CRASH.
-#include <sys/types.h>
-#include <sys/wait.h>
-#include <unistd.h>
-#include <fcntl.h>
-
 #include <algorithm>
 #include <chrono>
 #include <condition_variable>
@@ -505,7 +499,6 @@ struct RArg
 {
   Kind kind = K_bad;
   bool ok = true;         // references are valid storage (model: arg_ok)
-  bool nameless = false;  // EventId{id}
   logs::Severity sev = logs::Severity::kInvalid;
   std::unique_ptr<logs::EventId> eid;
   nostd::string_view sview;
@@ -556,7 +549,7 @@ static std::unique_ptr<RArg> parse_arg(const Toks &t, const Heap &h)
     a->bufs.emplace_back(new ExactBuf(t[2].s));
     a->eid.reset(new logs::EventId(t[1].as_ll(), sv(*a->bufs.back())));
   }
-  else if (k == "eidn" && t.size() == 2 && isint(1)) { a->kind = K_eid; a->nameless = true; a->eid.reset(new logs::EventId(t[1].as_ll())); }
+  else if (k == "eidn" && t.size() == 2 && isint(1)) { a->kind = K_eid; a->eid.reset(new logs::EventId(t[1].as_ll())); }
   else if (k == "bsv" || k == "bcs" || k == "bav")
   {
     size_t i = 1; char shape;
@@ -807,7 +800,6 @@ private:
     if (!p) return S_NULL;
     return dynamic_cast<lsdk::Recordable *>(p.get()) ? S_LIVE : S_NOOP;
   }
-  static bool any_nameless(const RArgs &a) { for (auto &x : a) if (x->nameless) return true; return false; }
   static bool all_ok(const RArgs &a) { for (auto &x : a) if (!x->ok) return false; return true; }
   static bool any_direct(const RArgs &a) { for (auto &x : a) if (x->kind == K_obs || x->kind == K_eidraw) return true; return false; }
   static int level_of(long long sev)
@@ -1067,7 +1059,7 @@ private:
       if (!(r < slots_.size())) throw IllCase();
       auto it = sig_table().find(sig_name(a));
       if (it == sig_table().end() || !it->second.emit_rec) throw BadCase();
-      if (state(slots_[r]) == S_NOOP && enabled_[l] && !any_nameless(a)) throw IllCase();
+      if (state(slots_[r]) == S_NOOP && enabled_[l]) throw IllCase();
       on(t, [&] { it->second.emit_rec(*loggers_[l], slots_[r], a); });
       print_counts(o);
     }
@@ -1184,60 +1176,11 @@ private:
   }
 };
 
-static bool may_crash(const Toks &t)
-{
-  for (size_t i = 0; i < t.size(); i++)
-  {
-    if (t[i].is_tag("eidn")) return true;
-    if (t[i].is_tag("LG") && i + 4 < t.size() && t[i + 4].kind == Tok::INT && t[i + 4].s == "3" && (i == 0 || t[i - 1].is_tag("|") || t[i - 1].is_tag("OPS"))) return true;
-  }
-  return false;
-}
-
-// run the case in a child process; a child that dies (signal or sanitizer exit) => CRASH
-static std::string run_forked(const Toks &t)
-{
-  int fd[2];
-  if (pipe(fd) != 0) return "BADCASE";
-  std::cout.flush();
-  pid_t pid = fork();
-  if (pid == 0)
-  {
-    close(fd[0]);
-    int nul = open("/dev/null", O_WRONLY);
-    if (nul >= 0) { dup2(nul, 2); dup2(nul, 1); }
-    std::string r = Case(t).run();
-    size_t off = 0;
-    while (off < r.size())
-    {
-      ssize_t n = write(fd[1], r.data() + off, r.size() - off);
-      if (n <= 0) break;
-      off += static_cast<size_t>(n);
-    }
-    close(fd[1]);
-    _exit(0);
-  }
-  close(fd[1]);
-  std::string r;
-  char buf[4096];
-  for (;;)
-  {
-    ssize_t n = read(fd[0], buf, sizeof buf);
-    if (n <= 0) break;
-    r.append(buf, static_cast<size_t>(n));
-  }
-  close(fd[0]);
-  int st = 0;
-  waitpid(pid, &st, 0);
-  if (pid < 0 || !WIFEXITED(st) || WEXITSTATUS(st) != 0) return "CRASH";
-  return r;
-}
-
 int main(int argc, char **argv)
 {
   register_sigs();
   return verif::run_cases(argc, argv, [](const Toks &t, Out &o) {
     if (t.empty()) { o.tag("BADCASE"); return; }
-    o.add(may_crash(t) ? run_forked(t) : Case(t).run());
+    o.add(Case(t).run());
   });
 }
